@@ -41,7 +41,10 @@ def run(ctx):
     tr = []
     for name, maxatt in ((("max3", 3),) if q else (("unl", 0), ("max3", 3))):
         tr.append(R.random_traces(ctx, name, 24 if q else 400, 36 if q else 60, maxatt, par=16 if q else 32))
-    tdrift = [v["drift"] for v in [mval] + [t[1] for t in tr] if v.get("drift")]
+    # agent level: the agent-level model, and real agents on the controlled mesh (Sleep, Wake, Sleep)
+    amodel = R.agent_model(ctx)
+    asum, aval = R.agent_cmesh(ctx, rounds=1 if q else 3)
+    tdrift = [v["drift"] for v in [mval, aval] + [t[1] for t in tr] if v.get("drift")]
     if not ctx.violations:
         if drift:
             raise vf.Infra("binding drift: the real Reconnector differs from Reconnect.tla without breaking the statement: %s"
@@ -55,19 +58,25 @@ def run(ctx):
         if div:
             raise vf.Infra("%d paths could not be replayed (real timers fired earlier than the path in every retry)" % div)
     m = results["main"]
-    ntr = msum["rounds"] + sum(t[0]["traces"] for t in tr)
+    ntr = msum["rounds"] + sum(t[0]["traces"] for t in tr) + asum["rounds"]
     ctx.evidence("model_checking",
                  assumptions=["real timers (20 ms initial delay, multiplier 2, jitter 0.2); a timer firing is awaited, never forced",
                               "replay: one address (timers of several addresses fire in an order the harness cannot choose); "
                               "two addresses are covered by the recorded random schedules validated by TLC",
                               "the random schedules issue an operation only clearly before a pending timer can fire or after "
                               "it has arrived (the order of 'timer fired' and the operation is otherwise unknown)",
+                              "agent level: real agents on the in-memory mesh, PollInterval 1 h (no poll), PollDuration 1 s (aggressive "
+                              "reconnect ticks every 500 ms); a dial already in flight when the agent falls asleep may finish, two or "
+                              "more dials while SLEEPING are a violation; the agent-level model is checked by TLC, its cmesh binding is "
+                              "one recorded scenario (Sleep, Wake, ticks, Sleep, wait) validated as a trace",
                               "manager scenario: the dialer is a stub that fails when the harness says so (dead address); "
                               "the manager's own Schedule inside connectWithTransport is logged as CbSchedule",
                               "bounds: " + "; ".join("%s: Cap=%d MaxAttempts=%d AttBound=%d MaxGate=%d MaxInfl=%d Stop=%s" % (
                                   (n,) + tuple(c[1:])) for n, c in runs)],
-                 states=sum(r["ideal"].distinct for r in results.values()),
-                 transitions=sum(r["edges"] for r in results.values()),
+                 states=sum(r["ideal"].distinct for r in results.values()) + amodel.distinct,
+                 transitions=sum(r["edges"] for r in results.values()) + amodel.generated - 1,
+                 agent_model_states=amodel.distinct, agent_rounds=asum["rounds"], agent_trace_events=asum["events"],
+                 agent_trace_accepted=aval["accepted"],
                  traces_validated_against_impl=sum(len(r["paths"]) for r in results.values()) + ntr,
                  exhaustive=True,
                  replayed_paths=sum(len(r["paths"]) for r in results.values()),
@@ -82,4 +91,5 @@ def run(ctx):
                  random_traces_accepted=[t[1]["accepted"] for t in tr],
                  deviations_caught=caught,
                  samples=[{"replay_path": [s["a"] for s in m["paths"][len(m["paths"]) // 2]["steps"]][:14]},
-                          {"manager_trace_events": msum.get("samples")}, {"random_trace_events": tr[0][0].get("samples")}])
+                          {"manager_trace_events": msum.get("samples")}, {"random_trace_events": tr[0][0].get("samples")},
+                          {"agent_trace_events": asum.get("samples")}])
